@@ -172,6 +172,26 @@ func TestVerifMetaDaemon(t *testing.T) {
 		VerifSetHook(r.URL.Query().Get("point"), nil)
 		io.WriteString(w, "ok")
 	})
+	// grab / directchan: a request handler that looked its topic up just before a persist took the nsqd lock and
+	// creates a channel in it while that persist is running (Topic.GetChannel needs the topic lock only)
+	var grabbed *Topic
+	mux.HandleFunc("/grab", func(w http.ResponseWriter, r *http.Request) {
+		tp, err := n.GetExistingTopic(r.URL.Query().Get("topic"))
+		if err != nil {
+			http.Error(w, "no such topic", 404)
+			return
+		}
+		grabbed = tp
+		io.WriteString(w, "ok")
+	})
+	mux.HandleFunc("/directchan", func(w http.ResponseWriter, r *http.Request) {
+		if grabbed == nil {
+			http.Error(w, "no topic grabbed", 404)
+			return
+		}
+		grabbed.GetChannel(r.URL.Query().Get("channel"))
+		io.WriteString(w, "ok")
+	})
 	mux.HandleFunc("/exit", func(w http.ResponseWriter, r *http.Request) {
 		go func() {
 			n.Exit() // graceful shutdown (what SIGTERM does in apps/nsqd); may be parked at a verif point
@@ -218,6 +238,7 @@ type vfMetaRun struct {
 	p       *vfMetaProc
 	lastStarted *vfMetaProc
 	exitPoint   string
+	lastWindow  string
 	dead    bool
 	out     *vfMetaLines
 	cli     *http.Client
@@ -499,10 +520,17 @@ func (r *vfMetaRun) exec(line string) {
 		if dat != mem {
 			// classify: a listed object that is not live (deletion not persisted) or the converse
 			key := "idle-file-differs"
+			if vfMetaHasExtra(mem, dat) && !vfMetaHasExtra(dat, mem) {
+				key = "created-object-not-persisted"
+			}
 			if vfMetaHasExtra(dat, mem) {
 				key = "deleted-object-still-listed"
 			}
-			r.fail(key, fmt.Sprintf("daemon idle but nsqd.dat=%s while live state=%s", dat, mem))
+			what := fmt.Sprintf("daemon idle but nsqd.dat=%s while live state=%s", dat, mem)
+			if r.lastWindow != "" {
+				what += " (after: `" + r.lastWindow + "` - the second creation was made while the persist of the first was parked at meta.persist.afterSnapshot)"
+			}
+			r.fail(key, what)
 		}
 	case "arm":
 		if r.dead {
@@ -522,6 +550,11 @@ func (r *vfMetaRun) exec(line string) {
 			r.out.Case("kill", "ok")
 		}
 		r.dead = true
+	case "window": // window <create A> // <create B>: B happens while the persist triggered by A is parked after its snapshot
+		if r.dead {
+			return
+		}
+		r.window(strings.Join(w[1:], " "))
 	case "exitpark": // graceful Exit of the daemon, parked at a verif point inside Exit
 		if r.dead {
 			return
@@ -692,6 +725,44 @@ func (r *vfMetaRun) race(spec string) {
 	}
 }
 
+// window: creation A's Notify persist is parked at `meta.persist.afterSnapshot` (document taken without B), creation B
+// is made, then the persist is released. B's own Notify persist must still run (it queues behind the nsqd lock), so
+// that once the daemon is idle nsqd.dat lists B (checked by the `idle` line that follows).
+func (r *vfMetaRun) window(spec string) {
+	parts := strings.Split(spec, " // ")
+	a, b := strings.Fields(parts[0]), strings.Fields(parts[1]) // b = createchan T C, made through the grabbed topic
+	const pt = "meta.persist.afterSnapshot"
+	r.lastWindow = spec
+	if g, err := r.get(r.p.ctl, "/grab?topic="+b[1]); err != nil || g != "ok" {
+		r.out.Case(strings.Join(a, " "), "window-setup-failed")
+		return
+	}
+	r.get(r.p.ctl, "/hold?point="+pt)
+	ca, ea := r.post(vfMetaOpPath(a))
+	parked := false
+	for i := 0; i < 400 && !parked; i++ {
+		if p, _ := r.get(r.p.ctl, "/parked"); p == "1" {
+			parked = true
+		} else {
+			time.Sleep(5 * time.Millisecond)
+		}
+	}
+	resB, eb := r.get(r.p.ctl, "/directchan?channel="+url.QueryEscape(b[2]))
+	time.Sleep(30 * time.Millisecond) // B's Notify goroutine reaches the nsqd lock (or decides not to persist)
+	r.get(r.p.ctl, "/release?point="+pt)
+	r.stats["window:parked="+strconv.FormatBool(parked)]++
+	if ea != nil {
+		r.out.Case(strings.Join(a, " "), "http-error: "+ea.Error())
+	} else {
+		r.out.Case(strings.Join(a, " "), strconv.Itoa(ca))
+	}
+	if eb != nil || resB != "ok" {
+		r.out.Case(strings.Join(b, " "), "direct-error")
+	} else {
+		r.out.Case(strings.Join(b, " "), "200")
+	}
+}
+
 // vfMetaHasExtra: does document `dat` list a topic or channel that `mem` does not?
 func vfMetaHasExtra(dat, mem string) bool {
 	if dat == "-" || dat == "absent" {
@@ -848,6 +919,18 @@ func vfMetaScript(rng *vfRand, kind int, idx int) []string {
 		} else {
 			s = append(s, "force topic.delete.afterNotify", "deletetopic t2", "idle", "kill", "restart", "idle")
 		}
+	case 7: // a creation made while another creation's persist is parked between its snapshot and its write
+		s = append(s, "createtopic t1", "idle")
+		ws := []string{
+			"window createchan t1 c1 // createchan t1 c2",
+			"window createtopic t5 // createchan t1 c3",
+			"window createchan t1 c4 // createchan t1 c5",
+			"window createtopic t6 // createchan t1 c6",
+		}
+		for i := 0; i < 2; i++ {
+			s = append(s, ws[(idx+i)%len(ws)], "idle")
+		}
+		s = append(s, "kill", "restart", "idle")
 	case 6: // a second instance while the first one is inside Exit() (listeners closed, still writing)
 		pt := []string{"meta.persist.afterSnapshot", "topic.exit.beforeFlush"}[idx%2]
 		s = append(s, "createtopic t1", "createchan t1 c0", "idle", "second", "exitpark "+pt, "second", "exitrelease",
@@ -926,7 +1009,7 @@ func TestVerifMetaCorr(t *testing.T) {
 		k0 := int(rng.Next() % 9)
 		k5 := int(rng.Next() % 20)
 		for i := 0; i < n; i++ {
-			kind := []int{0, 6, 5, 1, 1, 2, 3, 4}[i%8]
+			kind := []int{0, 6, 5, 1, 7, 2, 3, 4}[i%8]
 			if os.Getenv("VERIF_META_KIND") != "" {
 				kind = vfEnvInt("VERIF_META_KIND", 0)
 			}
@@ -942,7 +1025,7 @@ func TestVerifMetaCorr(t *testing.T) {
 				idx = k5
 				k5++
 			}
-			if kind == 6 {
+			if kind == 6 || kind == 7 {
 				idx = i / 8
 			}
 			scripts = append(scripts, vfMetaScript(rng, kind, idx))
